@@ -50,11 +50,11 @@ def run(ctx):
 
 CLAIM = {
     'technique': 'protocol-order typestate over all paths of zckdl main() with the exit status followed by the class '
-                 'engine; call-site error discipline; shared guard/extent rules',
+                 'engine; call-site error discipline; shared guard/extent rules, reset-completeness of zckDL (mod/ref of the callbacks vs. zck_dl_reset)',
     'text': 'static analysis: decides C04-a..c (protocol order) - scan and copy precede every range request, ranges '
             'are requested only while chunks are missing, fetch failures exit non-zero, and exit status 0 is reachable '
             'only with no chunk missing, through a whole-file checksum gate and after truncating the target to the '
-            'new length. Byte identity against a server is not decided.',
+            'new length. Byte identity against a server is not decided. C04-d: the update loop\'s zck_dl_reset() resets every per-request field.',
     'note': 'trusted: clang 14 front end; libcurl; facts are per path (no join)',
 }
 
